@@ -480,13 +480,21 @@ class Program:
             return pat.get('len') == ty.get('len') and Program.unify_ty(pat['elem'], ty['elem'], binds)
         return False
 
-    def resolve_impl(self, trait, self_ty, method):
+    def resolve_impl(self, trait, self_ty, method, trait_args=None):
         """`<self_ty as trait>::method` through the crate's impl index, generic (blanket) impls included.
         -> (fn path, type arguments aligned with that function's `tparams` or None) or None."""
         if trait is None or self_ty is None:
             return None
+        def targs_ok(im):
+            ta = im.get('trait_args')
+            if not ta or trait_args is None or len(trait_args) < len(ta):
+                return True
+            b_ = {}
+            Program.unify_ty(im['self_ty'], self_ty, b_)
+            return all(Program.has_param(x) or Program.unify_ty(p_, x, b_) for p_, x in zip(ta, trait_args))
         matching = [im for im in self.facts.get('impls', [])
-                    if (im.get('trait') == trait.split('::')[-1] or im.get('trait') == trait) and Program.unify_ty(im['self_ty'], self_ty, {})]
+                    if (im.get('trait') == trait.split('::')[-1] or im.get('trait') == trait) and Program.unify_ty(im['self_ty'], self_ty, {})
+                    and targs_ok(im)]
         if len(matching) > 1:
             # rustc tells such impls apart by their where-clauses, which the interpreter does not evaluate
             raise Undecided('several impls of %s match %s structurally' % (trait, self_ty.get('path') or self_ty.get('k')))
@@ -1840,7 +1848,8 @@ class Engine:
             raise Undecided('Clone of an array whose element type cannot be classified', sp)
         # ---- dynamic dispatch: resolve through the concrete type recorded at the unsizing coercion
         if res is not None and res.get('kind') == 'virtual' and vals and vals[0] is not None and vals[0][0] == 'dyn':
-            ri = prog.resolve_impl(fn.get('trait'), vals[0][2], fn.get('method'))
+            ri = prog.resolve_impl(fn.get('trait'), vals[0][2], fn.get('method'),
+                                   [prog.subst_ty(a_, fr.targs or {}) for a_ in (fn.get('args') or [])[1:]])
             if ri is not None:
                 impl_fn, iargs = ri
                 nfn = {'path': impl_fn, 'path_inst': impl_fn, 'trait': None,
@@ -1865,7 +1874,8 @@ class Engine:
         if res is None and fn.get('trait') is not None and fn.get('trait') not in self.FN_TRAITS and vals and vals[0] is not None \
                 and vals[0][0] == 'dyn' and fn.get('self_kind') in ('ref', 'refmut'):
             # `<T as Trait>::m(&self)` in generic code whose receiver is a trait object: T = dyn Trait, i.e. a virtual call
-            ri = prog.resolve_impl(fn.get('trait'), vals[0][2], fn.get('method'))
+            ri = prog.resolve_impl(fn.get('trait'), vals[0][2], fn.get('method'),
+                                   [prog.subst_ty(a_, fr.targs or {}) for a_ in (fn.get('args') or [])[1:]])
             if ri is not None:
                 impl_fn, iargs = ri
                 nfn = {'path': impl_fn, 'path_inst': impl_fn, 'trait': None,
@@ -1875,7 +1885,7 @@ class Engine:
             # generic code running for a known instantiation: `<T as Trait>::method` with T bound by the frame
             sargs = [prog.subst_ty(a, fr.targs) for a in fn['args']]
             if not Program.has_param(sargs[0]):
-                ri = prog.resolve_impl(fn['trait'], sargs[0], fn.get('method'))
+                ri = prog.resolve_impl(fn['trait'], sargs[0], fn.get('method'), sargs[1:])
                 if ri is not None:
                     impl_fn, iargs = ri
                     nfn = {'path': impl_fn, 'path_inst': impl_fn, 'trait': None,
@@ -1897,7 +1907,8 @@ class Engine:
                 self_ty = {'k': 'adt', 'path': v[1], 'local': True, 'args': []}
                 for _ in range(level):
                     self_ty = {'k': 'ref', 'mut': False, 'to': self_ty}
-                ri = prog.resolve_impl(fn.get('trait'), self_ty, fn.get('method')) if not prog.adts[v[1]].get('generics') else None
+                ri = prog.resolve_impl(fn.get('trait'), self_ty, fn.get('method'),
+                                       [prog.subst_ty(a_, fr.targs or {}) for a_ in (fn.get('args') or [])[1:]]) if not prog.adts[v[1]].get('generics') else None
                 if ri is not None:
                     impl_fn, iargs = ri
                     nfn = {'path': impl_fn, 'path_inst': impl_fn, 'trait': None,
